@@ -311,16 +311,24 @@ fn run_redirected(ctx: &mut Ctx, _rng: &mut Rng, index: u64) {
     }
     let to2 = to.to_owned();
     let world = World::install(move |_, idx, _| {
-        let resp = if idx == 0 { format!("HTTP/1.1 307 Temporary Redirect\r\nLocation: {to2}\r\nContent-Length: 0\r\n\r\n").into_bytes() } else { OK_RESPONSE.to_vec() };
+        let resp = if idx % 2 == 0 { format!("HTTP/1.1 307 Temporary Redirect\r\nLocation: {to2}\r\nContent-Length: 0\r\n\r\n").into_bytes() } else { OK_RESPONSE.to_vec() };
         Answer::Script(vec![Step::Data(resp)], WriteFaults::default())
     });
-    let res = attohttpc::get(from).proxy_settings(ps.build()).send();
+    // the request is prepared once and sent twice: the second send starts again at the first URL
+    let mut prepared = attohttpc::get(from).proxy_settings(ps.build()).prepare();
+    let res = prepared.send();
     if from == to {
         ctx.gray();
         return;
     }
     if res.is_err() || world.dial_count() != 2 {
         ctx.violation("redirected:send-failed", format!("{res:?}; dials={} from={from} to={to}", world.dial_count()));
+        return;
+    }
+    drop(res);
+    let res2 = prepared.send();
+    if res2.is_err() || world.dial_count() != 4 {
+        ctx.violation("redirected:resend-failed", format!("{res2:?}; dials={} from={from} to={to}", world.dial_count()));
         return;
     }
     // judge the SECOND request with the reference for the target URL
@@ -347,4 +355,25 @@ fn run_redirected(ctx: &mut Ctx, _rng: &mut Rng, index: u64) {
     let d = world.dial(1);
     ctx.count("redirected_second_requests", 1);
     judge(ctx, &cfg, &exp, &d.req, &d.trace().written, 1_000_000 + index);
+    // second send of the same PreparedRequest: both of its requests obey the same rules
+    let d3 = world.dial(3);
+    judge(ctx, &cfg, &exp, &d3.req, &d3.trace().written, 2_000_000 + index);
+    let from_url = Url::parse(from).unwrap();
+    let from_https = from_url.scheme() == "https";
+    let from_host: &'static str = HOSTS.iter().copied().find(|h| from.contains(h)).unwrap_or(if from.contains("other.test") { "other.test" } else { "origin.test" });
+    let from_via_proxy = proxy_kind >= 1 && !from_https && !(proxy_kind == 2 && from_url.host_str() == to_url.host_str());
+    let cfg0 = Config { url: from.to_owned(), proxy: if from_via_proxy { Some("http://proxy.test:3128".to_owned()) } else { None }, caller_host: "", https: from_https, host: from_host, port_kind: if from_url.port().is_some() { 2 } else { 0 } };
+    let mut exp0 = expected(&cfg0);
+    if let Some(p) = from_url.port() {
+        let h = from_url.host_str().unwrap().to_owned();
+        exp0.host_field = format!("{h}:{p}");
+        if !from_via_proxy {
+            exp0.dial_port = p;
+        } else {
+            exp0.target = format!("http://{h}:{p}{}", &exp0.target[exp0.target.find("/a").or(exp0.target.find("/b")).unwrap_or(0)..]);
+        }
+    }
+    let d2 = world.dial(2);
+    ctx.count("resent_first_requests", 1);
+    judge(ctx, &cfg0, &exp0, &d2.req, &d2.trace().written, 3_000_000 + index);
 }
